@@ -3,12 +3,23 @@ From Coq Require Import List Arith Bool PeanoNat Lia.
 From DV Require Import C12.Model.
 Import ListNotations.
 
-(* ------------------------------------------------------------------ tables *)
+(* ------------------------------------------------------------------ tables: build *)
+Lemma all_in_bounds_iff : forall n len, all_in_bounds n len = true <-> n <= len.
+Proof.
+  intros n len. unfold all_in_bounds. rewrite forallb_forall. split.
+  - intros H. destruct n as [|k]; [lia|]. specialize (H k). rewrite in_seq in H. apply Nat.ltb_lt in H; lia.
+  - intros H i Hi. apply in_seq in Hi. apply Nat.ltb_lt. lia.
+Qed.
+
+Lemma all_in_bounds_refl : forall n, all_in_bounds n n = true.
+Proof. intros n. apply all_in_bounds_iff. lia. Qed.
+
 Lemma table_build_rules_total : forall ic oc rs, table_build_rules ic oc rs = Ok \/ table_build_rules ic oc rs = Err.
 Proof.
   induction rs as [|r rest IH]; cbn [table_build_rules]; [left; reflexivity|].
-  destruct (in_entries r =? ic); cbn [negb]; [|right; reflexivity].
-  destruct (out_entries r =? oc); cbn [negb]; [exact IH | right; reflexivity].
+  destruct (in_entries r =? ic) eqn:E1; cbn [negb]; [|right; reflexivity].
+  destruct (out_entries r =? oc) eqn:E2; cbn [negb]; [|right; reflexivity].
+  apply Nat.eqb_eq in E1, E2. rewrite E1, E2, !all_in_bounds_refl. cbn [negb]. exact IH.
 Qed.
 
 Lemma table_build_total : forall t, table_build t = Ok \/ table_build t = Err.
@@ -16,30 +27,143 @@ Proof. intros t. apply table_build_rules_total. Qed.
 
 Lemma table_build_ok_iff : forall t, table_build t = Ok <-> Forall (fun r => in_entries r = in_clauses t /\ out_entries r = out_clauses t) (rules t).
 Proof.
-  intros [ic oc rs]. unfold table_build. cbn [in_clauses out_clauses rules].
+  intros [pol ic os rs]. unfold table_build, out_clauses. cbn [in_clauses outs rules]. generalize (length os) as oc. intros oc.
   induction rs as [|r rest IH]; cbn [table_build_rules]; [split; [constructor | reflexivity]|].
   destruct (in_entries r =? ic) eqn:E1; cbn [negb].
   - destruct (out_entries r =? oc) eqn:E2; cbn [negb].
-    + apply Nat.eqb_eq in E1, E2. rewrite IH. split; [intros H; constructor; auto | intros H; inversion H; assumption].
+    + apply Nat.eqb_eq in E1, E2. rewrite E1, E2, !all_in_bounds_refl. cbn [negb]. rewrite IH.
+      split; [intros H; constructor; auto | intros H; inversion H; assumption].
     + apply Nat.eqb_neq in E2. split; [discriminate | intros H; inversion H as [|? ? [_ Ho] _]; contradiction].
   - apply Nat.eqb_neq in E1. split; [discriminate | intros H; inversion H as [|? ? [Hi _] _]; contradiction].
 Qed.
 
-Lemma table_eval_total : forall t, table_eval t = Ok.
-Proof. reflexivity. Qed.
-
-(* the pinned builder crashes exactly when some rule is shorter than the clauses *)
+(* the pinned builder panics exactly when some rule is shorter than the clauses *)
 Lemma table_build_orig_crash_iff : forall t,
-  (exists s, table_build_orig t = Crash s) <-> Exists (fun r => in_entries r < in_clauses t \/ out_entries r < out_clauses t) (rules t).
+  (exists s, table_build_orig t = Panic s) <-> Exists (fun r => in_entries r < in_clauses t \/ out_entries r < out_clauses t) (rules t).
 Proof.
-  intros [ic oc rs]. unfold table_build_orig. cbn [in_clauses out_clauses rules].
+  intros [pol ic os rs]. unfold table_build_orig, out_clauses. cbn [in_clauses outs rules]. generalize (length os) as oc. intros oc.
   induction rs as [|r rest IH]; cbn [table_build_rules_orig].
   - split; [intros [s H]; discriminate | intros H; inversion H].
-  - destruct (in_entries r <? ic) eqn:E1.
-    + apply Nat.ltb_lt in E1. split; [intros _; left; left; exact E1 | intros _; eexists; reflexivity].
-    + apply Nat.ltb_ge in E1. destruct (out_entries r <? oc) eqn:E2.
-      * apply Nat.ltb_lt in E2. split; [intros _; left; right; exact E2 | intros _; eexists; reflexivity].
-      * apply Nat.ltb_ge in E2. rewrite IH. split; [intros H; right; exact H | intros H; inversion H as [? ? [Hx|Hx]|]; [lia | lia | assumption]].
+  - destruct (all_in_bounds ic (in_entries r)) eqn:E1; cbn [negb].
+    + apply all_in_bounds_iff in E1. destruct (all_in_bounds oc (out_entries r)) eqn:E2; cbn [negb].
+      * apply all_in_bounds_iff in E2. rewrite IH. split; [intros H; right; exact H | intros H; inversion H as [? ? [Hx|Hx]|]; [lia | lia | assumption]].
+      * assert (Hlt : out_entries r < oc). { destruct (Nat.le_gt_cases oc (out_entries r)) as [Hle|Hgt]; [apply all_in_bounds_iff in Hle; congruence | exact Hgt]. }
+        split; [intros _; left; right; exact Hlt | intros _; eexists; reflexivity].
+    + assert (Hlt : in_entries r < ic). { destruct (Nat.le_gt_cases ic (in_entries r)) as [Hle|Hgt]; [apply all_in_bounds_iff in Hle; congruence | exact Hgt]. }
+      split; [intros _; left; left; exact Hlt | intros _; eexists; reflexivity].
+Qed.
+
+(* ------------------------------------------------------------------ tables: evaluation.  Every index site of the current code is guarded where
+   it stands (a length test or an emptiness test right before it), so the evaluation gives a value for EVERY table, built or not *)
+Definition got {A : Type} (x : res A) : Prop := exists a, x = Got a.
+
+Lemma got_bind : forall (A B : Type) (x : res A) (k : A -> res B), got x -> (forall a, got (k a)) -> got (bind x k).
+Proof. intros A B x k [a ->] Hk. cbn [bind]. apply Hk. Qed.
+
+Lemma got_map_res : forall (A B : Type) (f : A -> res B) l, (forall x, got (f x)) -> got (map_res f l).
+Proof.
+  intros A B f l Hf. induction l as [|x r IH]; cbn [map_res]; [eexists; reflexivity|].
+  apply got_bind; [apply Hf|]. intros y. apply got_bind; [exact IH|]. intros ys. eexists; reflexivity.
+Qed.
+
+Lemma got_at0 : forall (A B : Type) (l : list A) site (k : A -> res B), is_empty l = false -> (forall a, got (k a)) -> got (at0 l site k).
+Proof. intros A B [|x l] site k He Hk; [discriminate | apply Hk]. Qed.
+
+Lemma get_result_got : forall n r, got (get_result n r).
+Proof.
+  intros n r. unfold get_result. destruct (1 <? length (outv r)).
+  - destruct (length (outv r) =? n) eqn:E; cbn [negb]; [|eexists; reflexivity].
+    apply Nat.eqb_eq in E. rewrite <- E, all_in_bounds_refl. eexists; reflexivity.
+  - destruct (outv r); eexists; reflexivity.
+Qed.
+
+Lemma default_value_got : forall t, got (default_value t).
+Proof.
+  intros t. unfold default_value. destruct (forallb is_none (map odefault (outs t))); [eexists; reflexivity|].
+  destruct (length (map odefault (outs t)) =? 1) eqn:E1.
+  - apply Nat.eqb_eq in E1. destruct (map odefault (outs t)) as [|d ds]; [discriminate|]. eexists; reflexivity.
+  - destruct (negb (length (map odefault (outs t)) =? names t)); eexists; reflexivity.
+Qed.
+
+Lemma any_loop_got : forall n first l, got (any_loop get_result n first l).
+Proof.
+  intros n first l. induction l as [|r rest IH]; cbn [any_loop]; [eexists; reflexivity|].
+  apply got_bind; [apply get_result_got|]. intros x. destruct (result_eqb x first); [exact IH | eexists; reflexivity].
+Qed.
+
+(* with get_result as it is now, whatever computes the first output values for the aggregators: a panic of the evaluation is a panic of that
+   computation, under hit policy COLLECT with SUM / MIN / MAX, at most one named output clause and at least one matching rule *)
+Lemma table_eval_with_panic : forall fv t m s, table_eval_with get_result fv t m = EvalPanic s ->
+  is_aggregate (policy t) = true /\ names t <= 1 /\ fv (matching_rules (rules t) m) = EvalPanic s.
+Proof.
+  intros fv t m s. unfold table_eval_with.
+  set (matching := matching_rules (rules t) m). set (sorted := prioritized (map ovalues (outs t)) matching).
+  assert (Hone : forall l : list rule, got (if is_empty l then default_value t else at0 l site_matching0 (fun r => bind (get_result (names t) r) (fun x => Got (One x))))).
+  { intros l. destruct (is_empty l) eqn:E; [apply default_value_got|]. apply got_at0; [exact E|].
+    intros r. apply got_bind; [apply get_result_got | intros x; eexists; reflexivity]. }
+  assert (Hall : forall l : list rule, got (if is_empty l then default_value t else bind (map_res (get_result (names t)) l) (fun xs => Got (Many xs)))).
+  { intros l. destruct (is_empty l); [apply default_value_got|]. apply got_bind; [apply got_map_res; apply get_result_got | intros xs; eexists; reflexivity]. }
+  assert (Hno : forall (P : Prop) (x : res value), got x -> x = EvalPanic s -> P).
+  { intros P x [v ->] H. discriminate. }
+  assert (Hagg : forall a, is_aggregate (Collect a) = true ->
+            (if 1 <? names t then Got (One RNull) else if is_empty matching then default_value t
+             else bind (fv matching) (fun o => match o with Some vs => Got (One (aggregate a vs)) | None => Got (One RNull) end)) = EvalPanic s ->
+            is_aggregate (Collect a) = true /\ names t <= 1 /\ fv matching = EvalPanic s).
+  { intros a Ha. destruct (1 <? names t) eqn:En; [discriminate|]. apply Nat.ltb_ge in En.
+    destruct (is_empty matching); [apply Hno; apply default_value_got|].
+    destruct (fv matching) as [[vs|]|s']; cbn [bind]; try discriminate. intros H. injection H as ->. auto. }
+  destruct (policy t) as [| | | | | |a].
+  - apply Hno. destruct (is_empty matching) eqn:E; [apply default_value_got|]. destruct (1 <? length matching); [eexists; reflexivity|].
+    specialize (Hone matching). rewrite E in Hone. exact Hone.
+  - apply Hno. destruct (is_empty matching) eqn:E; [apply default_value_got|]. apply got_at0; [exact E|]. intros r.
+    apply got_bind; [apply get_result_got|]. intros first. apply got_bind; [apply any_loop_got | intros x; eexists; reflexivity].
+  - apply Hno, Hone.
+  - apply Hno, Hone.
+  - apply Hno, Hall.
+  - apply Hno, Hall.
+  - destruct a.
+    + apply Hno, Hall.
+    + apply Hno. destruct (is_empty matching); [apply default_value_got | eexists; reflexivity].
+    + apply Hagg. reflexivity.
+    + apply Hagg. reflexivity.
+    + apply Hagg. reflexivity.
+Qed.
+
+Lemma table_eval_total : forall t matches site, table_eval t matches <> EvalPanic site.
+Proof. intros t m site H. apply table_eval_with_panic in H. destruct H as (_ & _ & H). discriminate. Qed.
+
+Lemma table_eval_got : forall t m, got (table_eval t m).
+Proof. intros t m. destruct (table_eval t m) as [v|s] eqn:E; [eexists; reflexivity | exfalso; exact (table_eval_total t m s E)]. Qed.
+
+(* the code before d6b0858: output_entry_values[0] of every matching rule *)
+Lemma first_values_orig_cases : forall l,
+  (Exists (fun r => outv r = []) l /\ first_values_orig l = EvalPanic site_aggregate_value0) \/
+  (~ Exists (fun r => outv r = []) l /\ got (first_values_orig l)).
+Proof.
+  unfold first_values_orig. induction l as [|r rest IH]; cbn [map_res bind].
+  - right. split; [intros H; inversion H | eexists; reflexivity].
+  - destruct (outv r) as [|v vs] eqn:Er; cbn [at0 bind].
+    + left. split; [left; exact Er | reflexivity].
+    + destruct IH as [[Hex Hp] | [Hno [o Ho]]].
+      * left. split; [right; exact Hex|]. destruct (map_res _ rest); cbn [bind] in *; [discriminate | exact Hp].
+      * right. split; [intros H; inversion H; subst; [congruence | contradiction]|].
+        destruct (map_res _ rest); cbn [bind] in *; [eexists; reflexivity | discriminate].
+Qed.
+
+Lemma exists_not_empty : forall (A : Type) (P : A -> Prop) l, Exists P l -> is_empty l = false.
+Proof. intros A P l H. destruct H; reflexivity. Qed.
+
+Lemma table_eval_orig2_panic_iff : forall t m,
+  (exists s, table_eval_orig2 t m = EvalPanic s) <->
+  is_aggregate (policy t) = true /\ names t <= 1 /\ Exists (fun r => outv r = []) (matching_rules (rules t) m).
+Proof.
+  intros t m. split.
+  - intros [s H]. apply table_eval_with_panic in H. destruct H as (Ha & Hn & Hf). split; [exact Ha|]. split; [exact Hn|].
+    destruct (first_values_orig_cases (matching_rules (rules t) m)) as [[Hex _] | [_ [o Ho]]]; [exact Hex | congruence].
+  - intros (Ha & Hn & Hex). exists site_aggregate_value0.
+    destruct (first_values_orig_cases (matching_rules (rules t) m)) as [[_ Hp] | [Hno _]]; [|contradiction].
+    pose proof (exists_not_empty _ _ _ Hex) as He. apply Nat.ltb_ge in Hn.
+    unfold table_eval_orig2, table_eval_with. destruct (policy t) as [| | | | | |[| | | |]]; try discriminate; rewrite Hn, He, Hp; reflexivity.
 Qed.
 
 (* ------------------------------------------------------------------ recursion over requirements *)
@@ -152,12 +276,18 @@ Proof.
   - right. apply first_not_ok_app_err. exact H.
 Qed.
 
-Lemma evaluate_total : forall fuel d (rank : nat -> nat) n,
-  (forall n ts m, targets (deps d) n = Some ts -> In m ts -> targets (deps d) m <> None -> rank m < rank n) ->
-  rank n < fuel -> evaluate fuel d n = Ok.
+Lemma eval_tables_ok : forall ts ms, first_not_ok (eval_tables table_eval ts ms) = Ok.
 Proof.
-  intros fuel d rank n Hr Hn. unfold evaluate. cbn [first_not_ok]. rewrite (ranked_follow_ok _ rank Hr fuel n Hn).
-  induction (tables d) as [|t ts IH]; cbn [map first_not_ok]; [reflexivity | exact IH].
+  induction ts as [|t ts IH]; intros ms; cbn [eval_tables first_not_ok]; [reflexivity|].
+  destruct (table_eval_got t (hd [] ms)) as [v ->]. cbn [eval_outcome]. apply IH.
+Qed.
+
+Lemma evaluate_total : forall fuel d (rank : nat -> nat) ms n,
+  (forall n ts m, targets (deps d) n = Some ts -> In m ts -> targets (deps d) m <> None -> rank m < rank n) ->
+  rank n < fuel -> evaluate fuel d ms n = Ok.
+Proof.
+  intros fuel d rank ms n Hr Hn. unfold evaluate, evaluate_with. cbn [first_not_ok]. rewrite (ranked_follow_ok _ rank Hr fuel n Hn).
+  apply eval_tables_ok.
 Qed.
 
 (* the pinned code on a cyclic model: building diverges (stack overflow) for every stack size *)
@@ -193,26 +323,70 @@ Proof.
   - split; [discriminate|]. apply Bool.eqb_prop in H2. split; [discriminate | intros Hc; rewrite Hc in H2; discriminate].
 Qed.
 
-(* ------------------------------------------------------------------ the four confirmed defects of the pinned commit *)
-Definition t_short_rule := mk_table 2 1 [mk_rule 1 1].
-Definition t_no_output := mk_table 1 0 [mk_rule 1 0].
+(* ------------------------------------------------------------------ the confirmed defects: witnesses *)
+Definition o_plain := mk_out false [] None.
+Definition t_short_rule := mk_table First 2 [o_plain] [mk_rule 1 [1]].                 (* two input clauses, a rule with one input entry *)
+Definition t_short_rule_out := mk_table First 1 [o_plain; o_plain] [mk_rule 1 [1]].    (* two output clauses, a rule with one output entry *)
+Definition t_no_output := mk_table First 1 [] [mk_rule 1 []].                          (* no output clause, the rule has no output entry *)
+Definition t_no_output_agg (a : aggregator) := mk_table (Collect a) 1 [] [mk_rule 1 []].
 Definition g_two_cycle : graph := [(0, [1]); (1, [0])].
 
-Lemma orig_refuted_short_rule : build_orig 100 (mk_defs [t_short_rule] []) = Crash site_input_entry /\ build 100 (mk_defs [t_short_rule] []) = Err.
-Proof. split; vm_compute; reflexivity. Qed.
-Lemma orig_refuted_no_output : build_orig 100 (mk_defs [t_no_output] [(0, [])]) = Ok /\ evaluate_orig 100 (mk_defs [t_no_output] [(0, [])]) 0 = Crash site_output_value0
-  /\ evaluate 100 (mk_defs [t_no_output] [(0, [])]) 0 = Ok.
+Lemma table_build_orig_refuted :
+  table_build_orig t_short_rule = Panic site_input_entry /\ table_build t_short_rule = Err /\
+  table_build_orig t_short_rule_out = Panic site_output_entry /\ table_build t_short_rule_out = Err.
 Proof. repeat split; vm_compute; reflexivity. Qed.
-Lemma orig_refuted_cycle : on_cycle g_two_cycle 0 /\ (forall fuel, build_orig fuel (mk_defs [] g_two_cycle) = Diverge) /\ (forall fuel, evaluate_orig fuel (mk_defs [] g_two_cycle) 0 = Diverge)
+
+(* a table that BUILDS and whose evaluation panicked: in the pinned commit under every policy that takes the result of a rule (here FIRST);
+   after 012211c still under COLLECT with SUM, MIN, MAX (found by the audit, repaired in this round); now null *)
+Lemma table_eval_orig_refuted :
+  table_build t_no_output = Ok /\ table_eval_orig t_no_output [true] = EvalPanic site_output_value0 /\ table_eval t_no_output [true] = Got (One RNull) /\
+  (forall a, table_build (t_no_output_agg a) = Ok) /\
+  table_eval_orig2 (t_no_output_agg ASum) [true] = EvalPanic site_aggregate_value0 /\
+  table_eval_orig2 (t_no_output_agg AMin) [true] = EvalPanic site_aggregate_value0 /\
+  table_eval_orig2 (t_no_output_agg AMax) [true] = EvalPanic site_aggregate_value0 /\
+  (forall a, table_eval (t_no_output_agg a) [false] = Got (One RNull)) /\
+  table_eval (t_no_output_agg ASum) [true] = Got (One RNull) /\ table_eval (t_no_output_agg AMin) [true] = Got (One RNull) /\
+  table_eval (t_no_output_agg AMax) [true] = Got (One RNull).
+Proof. repeat split; try (intros a; destruct a); vm_compute; reflexivity. Qed.
+
+Lemma orig_refuted_short_rule : build_orig 100 (mk_defs [t_short_rule] []) = Panic site_input_entry /\ build 100 (mk_defs [t_short_rule] []) = Err.
+Proof. split; vm_compute; reflexivity. Qed.
+Lemma orig_refuted_no_output : build_orig 100 (mk_defs [t_no_output] [(0, [])]) = Ok /\ evaluate_orig 100 (mk_defs [t_no_output] [(0, [])]) [[true]] 0 = Panic site_output_value0
+  /\ evaluate 100 (mk_defs [t_no_output] [(0, [])]) [[true]] 0 = Ok.
+Proof. repeat split; vm_compute; reflexivity. Qed.
+(* the model built (current builder) and its evaluation panicked with the aggregators as they were before d6b0858 *)
+Lemma orig2_refuted_no_output_aggregate :
+  build 100 (mk_defs [t_no_output_agg ASum] [(0, [])]) = Ok /\
+  evaluate_orig2 100 (mk_defs [t_no_output_agg ASum] [(0, [])]) [[true]] 0 = Panic site_aggregate_value0 /\
+  evaluate 100 (mk_defs [t_no_output_agg ASum] [(0, [])]) [[true]] 0 = Ok.
+Proof. repeat split; vm_compute; reflexivity. Qed.
+Lemma orig_refuted_cycle : on_cycle g_two_cycle 0 /\ (forall fuel, build_orig fuel (mk_defs [] g_two_cycle) = Diverge) /\ (forall fuel ms, evaluate_orig fuel (mk_defs [] g_two_cycle) ms 0 = Diverge)
   /\ (forall fuel, build fuel (mk_defs [] g_two_cycle) = Err).
 Proof.
   assert (Hc : on_cycle g_two_cycle 0).
   { eapply path_step with (m := 1) (ts := [1]); [reflexivity | left; reflexivity |]. eapply path_one with (ts := [0]); [reflexivity | left; reflexivity]. }
   split; [exact Hc|]. split; [|split].
   - intros fuel. apply (build_orig_cycle_diverges fuel (mk_defs [] g_two_cycle) 0 Hc). constructor.
-  - intros fuel. unfold evaluate_orig. cbn [deps tables map first_not_ok]. rewrite (cycle_diverges _ _ Hc fuel). reflexivity.
+  - intros fuel ms. unfold evaluate_orig, evaluate_with. cbn [deps tables eval_tables first_not_ok]. rewrite (cycle_diverges _ _ Hc fuel). reflexivity.
   - intros fuel. reflexivity.
 Qed.
+
+(* a table with values: two named output clauses with output values, three rules, every hit policy *)
+Definition t_sample (p : hit_policy) := mk_table p 1 [mk_out true [3; 2; 1] None; mk_out true [] (Some 4)] [mk_rule 1 [1; 5]; mk_rule 1 [2; 6]; mk_rule 1 [3; 7]].
+Lemma table_examples :
+  (forall p, table_build (t_sample p) = Ok) /\
+  table_eval (t_sample Priority) [true; false; true] = Got (One (RCtx [Some 3; Some 7])) /\
+  table_eval (t_sample OutputOrder) [true; true; true] = Got (Many [RCtx [Some 3; Some 7]; RCtx [Some 2; Some 6]; RCtx [Some 1; Some 5]]) /\
+  table_eval (t_sample RuleOrder) [true; true; false] = Got (Many [RCtx [Some 1; Some 5]; RCtx [Some 2; Some 6]]) /\
+  table_eval (t_sample Unique) [true; true; false] = Got (One RNull) /\
+  table_eval (t_sample Unique) [false; false; false] = Got (One (RCtx [None; Some 4])) /\
+  table_eval (t_sample (Collect ACount)) [true; true; false] = Got (One (RNum 2)) /\
+  table_eval (t_sample (Collect ASum)) [true; true; true] = Got (One RNull) /\
+  table_eval (mk_table (Collect ASum) 1 [o_plain] [mk_rule 1 [4]; mk_rule 1 [5]]) [true; true] = Got (One (RNum 9)) /\
+  table_eval (mk_table (Collect AMin) 1 [o_plain] [mk_rule 1 [4]; mk_rule 1 [5]]) [true; true] = Got (One (RNum 4)) /\
+  table_eval (mk_table Any 1 [o_plain] [mk_rule 1 [4]; mk_rule 1 [5]]) [true; true] = Got (One RNull) /\
+  table_eval (mk_table Any 1 [o_plain] [mk_rule 1 [4]; mk_rule 1 [4]]) [true; true] = Got (One (RNum 4)).
+Proof. repeat split; try (intros p; destruct p as [| | | | | |[| | | |]]); vm_compute; reflexivity. Qed.
 
 (* ------------------------------------------------------------------ item definition trees of any depth *)
 Section itemdef_induction.
